@@ -37,13 +37,16 @@ def run(ctx):
     bases = [k for k in CONFIGS if k not in ('ncd',)]
     def perturbations(kind, seed):
         out = []
-        k = rng.randrange(1, 8)
+        k = rng.randrange(2, 14)
         out.append((f'analyzer sampling {k} own dists', dict(analyzers=[make_sampler(ss, ss.Analyzer, k, 'zz_sampler')]), ['zz_sampler']))
         out.append((f'intervention sampling {k} own dists', dict(interventions=[make_sampler(ss, ss.Intervention, k, 'aa_sampler')]), ['aa_sampler']))
         out.append(('two samplers', dict(analyzers=[make_sampler(ss, ss.Analyzer, 2, 's1'), make_sampler(ss, ss.Analyzer, 5, 's2')]), ['s1', 's2']))
+        out.append((f'intervention sampling {k} own dists, listed first', dict(interventions_front=[make_sampler(ss, ss.Intervention, k, 'first_sampler')]), ['first_sampler']))
         if 'sir' in kind or 'hiv' in kind:
             out.append(('zero-coverage vaccination', dict(interventions=[ss.routine_vx(product=ss.sir_vaccine(efficacy=0.9), prob=0.0, name='novx')]), ['novx']))
             out.append(('zero-efficacy vaccine', dict(interventions=[ss.routine_vx(product=ss.sir_vaccine(efficacy=0.0), prob=0.5, name='nullvx')]), ['nullvx']))
+            out.append(('zero-coverage vaccination listed first', dict(interventions_front=[ss.routine_vx(product=ss.sir_vaccine(efficacy=0.9), prob=0.0, name='novx1')]), ['novx1']))
+            out.append(('zero-efficacy vaccine listed first', dict(interventions_front=[ss.campaign_vx(product=ss.sir_vaccine(efficacy=0.0), prob=0.5, years=[2002, 2004], name='nullvx1')]), ['nullvx1']))
         nets = {'sir_mf': 'mf', 'sir_preg': 'mf', 'hiv_mf_vx': 'mf', 'sir_births': 'mf'}
         beta = {nets[kind]: [0.4, 0.3]} if kind in nets else 0.2
         if kind == 'sir_preg': beta = {'mf': [0.4, 0.3], 'maternal': [0.3, 0]}
